@@ -5,6 +5,9 @@ Require Import ExtrOcamlBasic.
 Definition c13_z_for_vutil : BinNums.Z := BinNums.Z0.
 Extraction Language OCaml.
 Extraction "../build/ocaml/C13/model.ml"
-  run enabled cur_step cur_init cur_final cu_fb it_step it_init it_uaf sh_step sh_init sh_final sh_gone sh_pcI
-  th_run th_cycles th_zombie th_live lock_table lock_table_palette respects_rank
-  c13_z_for_vutil cur_witness it_witness sh_witness sh_finishing sj_step sj_init sj_uaf sj_freed sj_final sj_witness M_send M_cursor M_upd M_list M_ref M_out.
+  run enabled cur_step cur_init cur_final cu_fb it_step it_init it_uaf sh_step sh_step_cfg sh_init sh_final sh_gone sh_pcI sh_wait sh_shut
+  cfg_head cfg_selfail cfg_selfail_fixed cfg_nojoin sh_selfail_witness sh_nojoin_witness
+  th_run th_cycles th_zombie th_live lock_table lock_table_palette lock_table_n respects_rank
+  c13_z_for_vutil cur_witness it_witness sh_witness sh_finishing sj_step sj_init sj_uaf sj_freed sj_final sj_witness
+  nf_step nf_init nf_final nf_ok nf_send nf_badunlock nf_pcA nf_pcB nf_gone_witness nf_new_witness
+  P_send P_cursor P_upd P_list P_ref P_out.
